@@ -5,6 +5,7 @@ import "fmt"
 var GovKinds = []string{"PROP_CREATE", "PROP_CREATE", "PROP_FUND", "PROP_FUND", "PROP_FUND", "PROP_VOTE", "PROP_VOTE", "PROP_VOTE", "PROP_CANCEL", "PROP_WITHDRAW", "PROP_WITHDRAW", "PROP_EXPIRE", "PROP_FINALIZE", "SEND", "STAKE", "UNSTAKE"}
 var OnsKinds = []string{"DOM_CREATE", "DOM_CREATE", "DOM_CREATE_SUB", "DOM_UPDATE", "DOM_SELL", "DOM_SELL", "DOM_PURCHASE", "DOM_PURCHASE", "DOM_SEND", "DOM_RENEW", "DOM_DELETE_SUB", "SEND"}
 
+var DelegKinds = []string{"DELEGATE", "DELEGATE", "UNDELEGATE", "UNDELEGATE", "DELEG_WITHDRAW", "DELEG_WITHDRAW", "DELEG_REINVEST", "SEND", "SENDPOOL"}
 var StakeKinds = []string{"STAKE", "STAKE", "UNSTAKE", "UNSTAKE", "UNSTAKE", "WITHDRAW", "WITHDRAW", "SEND"}
 
 var propNames = []string{"p1", "p2", "p3"}
@@ -106,6 +107,9 @@ func familyExt(family, id string, g *Gen, blocks, maxTx int) *Scenario {
 		return g.Mixed(id, blocks, maxTx, GovKinds)
 	case "ons":
 		return g.Mixed(id, blocks, maxTx, OnsKinds)
+	case "deleg":
+		g.Hostile = 0.2
+		return g.Mixed(id, blocks, maxTx+2, DelegKinds)
 	case "stake":
 		g.Hostile = 0.2
 		return g.Mixed(id, blocks, maxTx+2, StakeKinds)
@@ -118,6 +122,8 @@ func familyExt(family, id string, g *Gen, blocks, maxTx int) *Scenario {
 
 func familyKindsExt(family string) []string {
 	switch family {
+	case "deleg":
+		return DelegKinds
 	case "stake":
 		return StakeKinds
 	case "gov":
